@@ -369,6 +369,44 @@ end Verif.C09
 namespace Verif.C09
 open Verif.Py Verif.Tables
 
+/-- characters of an identifier: ASCII letters, digits, `_`, `-` -/
+def isIdentChar (c : Char) : Bool := C08.isAsciiWord c || c = '-'
+
+theorem identChar_props (c : Char) (h : isIdentChar c = true) :
+    isSpace c = false ∧ c ≠ '#' ∧ c ≠ ':' := by
+  have key : ∀ n : Nat, c.toNat = n →
+      ((48 ≤ n ∧ n ≤ 57) ∨ (97 ≤ n ∧ n ≤ 122) ∨ (65 ≤ n ∧ n ≤ 90) ∨ n = 95 ∨ n = 45) := by
+    intro n hn
+    simp only [isIdentChar, C08.isAsciiWord, C08.isDigit, Bool.or_eq_true, Bool.and_eq_true,
+      decide_eq_true_eq, Char.le_def, UInt32.le_iff_toNat_le, Char.isDigit, ge_iff_le] at h
+    subst hn
+    rcases h with ((((h | h) | h) | h) | h)
+    · left; exact ⟨h.1, h.2⟩
+    · right; left; exact ⟨h.1, h.2⟩
+    · right; right; left; exact ⟨h.1, h.2⟩
+    · right; right; right; left; subst h; rfl
+    · right; right; right; right; subst h; rfl
+  have hk := key c.toNat rfl
+  refine ⟨?_, ?_, ?_⟩
+  · have h1 : c ≠ ' ' := by intro e; subst e; revert hk; decide
+    have h2 : c ≠ '\t' := by intro e; subst e; revert hk; decide
+    have h3 : c ≠ '\n' := by intro e; subst e; revert hk; decide
+    have h4 : c ≠ '\r' := by intro e; subst e; revert hk; decide
+    simp only [isSpace, h1, h2, h3, h4, decide_false, Bool.false_or, Bool.or_eq_false_iff, Bool.and_eq_false_iff,
+      decide_eq_false_iff_not]
+    omega
+  · intro e; subst e; revert hk; decide
+  · intro e; subst e; revert hk; decide
+
+theorem word_not_space (c : Char) (h : C08.isAsciiWord c = true) : isSpace c = false :=
+  (identChar_props c (by simp [isIdentChar, h])).1
+
+/-- a field name: non-empty, free of white space (`\S+`) -/
+def NameOk (n : List Char) : Prop := n ≠ [] ∧ ∀ c ∈ n, isSpace c = false
+
+/-- ends in a character that is not white space -/
+def EndNS (l : List Char) : Prop := ∃ pre z, l = pre ++ [z] ∧ isSpace z = false
+
 /-- a token of a field line: non-empty, free of white space and `#` -/
 def TokOk (t : List Char) : Prop := t ≠ [] ∧ ∀ c ∈ t, isSpace c = false ∧ c ≠ '#'
 
@@ -511,7 +549,7 @@ theorem joinWith_head (p : List Char) (ps : List (List Char)) (hp : TokOk p) :
     | cons q qs => exact ⟨x, xs ++ ' ' :: joinWith ' ' (q :: qs), by simp [joinWith], hx.1, hx.2⟩
 
 theorem parseFieldLine_fmt (name dt : List Char) (flags : List (List Char)) (T : List Char)
-    (cm : Option (List Char)) (hn : TokOk name) (htoks : ∀ t ∈ dt :: flags, TokOk t)
+    (cm : Option (List Char)) (hn : NameOk name) (htoks : ∀ t ∈ dt :: flags, TokOk t)
     (hT : (T = [] ∧ cm = none) ∨
           (∃ k c x tl, T = List.replicate k ' ' ++ '#' :: ' ' :: c ∧ cm = some c ∧ c = x :: tl ∧ isSpace x = false)) :
     parseFieldLine (name ++ ' ' :: (joinWith ' ' (dt :: flags) ++ T))
@@ -520,7 +558,7 @@ theorem parseFieldLine_fmt (name dt : List Char) (flags : List (List Char)) (T :
   have hnohash := joinWith_no_hash (dt :: flags) htoks
   have hsplit := fun k => splitWs_join (dt :: flags) k htoks
   generalize joinWith ' ' (dt :: flags) = J at hJ hnohash hsplit ⊢
-  have hname : ∀ c ∈ name, (fun c => !isSpace c) c = true := fun c hc => by simp [(hn.2 c hc).1]
+  have hname : ∀ c ∈ name, (fun c => !isSpace c) c = true := fun c hc => by simp [hn.2 c hc]
   have h1 := takeWhile_dropWhile_stop (p := fun c => !isSpace c) name ' ' (J ++ T) hname (by simp [isSpace_space])
   have h2 := takeWhile_dropWhile_stop (p := isSpace) [' '] x (jt ++ T) (by simp [isSpace_space]) hx1
   have hJT : J ++ T = x :: (jt ++ T) := by rw [hJ]; rfl
@@ -551,58 +589,113 @@ theorem parseFieldLine_fmt (name dt : List Char) (flags : List (List Char)) (T :
     subst hc
     simp [List.dropWhile, isSpace_hash, isSpace_space, hy]
 
-/-- a field the round trip covers: name, datatype and flags are non-empty tokens free of white
-space and `#`; datatype, flags and comment do not end in a colon (the line would look like a table
-line); a comment is non-empty and has no leading or trailing white space. -/
-structure FieldOk (f : SField) : Prop where
-  name : TokOk f.name
-  dt : TokOk f.datatype ∧ LastOk f.datatype
-  flags : ∀ t ∈ f.flags, TokOk t ∧ LastOk t
-  comment : ∀ c, f.comment = some c → (∃ x tl, c = x :: tl ∧ isSpace x = false) ∧ LastOk c
+theorem exists_concat' (l : List Char) (h : l ≠ []) : ∃ pre z, l = pre ++ [z] := by
+  induction l with
+  | nil => exact absurd rfl h
+  | cons x xs ih =>
+    cases xs with
+    | nil => exact ⟨[], x, rfl⟩
+    | cons y ys =>
+      obtain ⟨pre, z, hz⟩ := ih (by simp)
+      exact ⟨x :: pre, z, by simp [hz]⟩
 
-/-- a relation name the round trip covers: starts with a word character, no white space
-(identifiers, one-character names included) -/
-def RelNameOk (n : Name) : Prop :=
-  ∃ c tl, n = c :: tl ∧ C08.isAsciiWord c = true ∧ ∀ x ∈ n, isSpace x = false
+theorem EndNS_of_tok (t : List Char) (h : TokOk t) : EndNS t := by
+  obtain ⟨pre, z, rfl⟩ := exists_concat' t h.1
+  exact ⟨pre, z, rfl, (h.2 z (by simp)).1⟩
+
+theorem EndNS_append (a b : List Char) (h : EndNS b) : EndNS (a ++ b) := by
+  obtain ⟨pre, z, rfl, h1⟩ := h
+  exact ⟨a ++ pre, z, by simp, h1⟩
+
+theorem LastOk_EndNS (l : List Char) (h : LastOk l) : EndNS l := by
+  obtain ⟨pre, z, rfl, h1, _⟩ := h
+  exact ⟨pre, z, rfl, h1⟩
+
+/-- the joined tokens end with the last token -/
+theorem joinWith_getLast (toks : List (List Char)) (hne : toks ≠ []) :
+    ∃ pre, joinWith ' ' toks = pre ++ toks.getLast hne := by
+  induction toks with
+  | nil => exact absurd rfl hne
+  | cons p ps ih =>
+    cases ps with
+    | nil => exact ⟨[], by simp [joinWith]⟩
+    | cons q qs =>
+      obtain ⟨pre, hpre⟩ := ih (by simp)
+      refine ⟨p ++ ' ' :: pre, ?_⟩
+      simp only [joinWith, List.getLast_cons_cons]
+      rw [hpre]; simp
+
+/-- what a formatted field line ends with: the comment if there is one, else the last flag, else
+the datatype -/
+def lineTail (f : SField) : List Char :=
+  match f.comment with
+  | some c => c
+  | none => (f.datatype :: f.flags).getLast (by simp)
+
+/-- EXACTLY the fields `_parse_schema` reads back as written (on the model's ASCII reading of
+`\w`): the name is a non-empty run of non-space characters (`\S+`); datatype and flags are non-empty
+and free of white space and `#` (`[^#]+`, `split()`); a comment is non-empty (an empty one is not
+written) and neither starts nor ends with white space (`#\s*`, `line.strip()`); and the line must
+not look like a relation header `^\w.*:$`: either the name does not start with a word character or
+the line does not end in a colon. -/
+structure FieldOk (f : SField) : Prop where
+  name : NameOk f.name
+  toks : ∀ t ∈ f.datatype :: f.flags, TokOk t
+  comment : ∀ c, f.comment = some c → (∃ x tl, c = x :: tl ∧ isSpace x = false) ∧ EndNS c
+  notTable : (∃ x tl, f.name = x :: tl ∧ C08.isAsciiWord x = false) ∨ LastOk (lineTail f)
+
+/-- EXACTLY the relation names read back as written: a word character first (`^\w.*:$`) -/
+def RelNameOk (n : Name) : Prop := ∃ c tl, n = c :: tl ∧ C08.isAsciiWord c = true
+
+theorem tableMatch_none_of_head (x : Char) (tl : List Char) (h : C08.isAsciiWord x = false) :
+    tableMatch (x :: tl) = none := by
+  simp [tableMatch, h]
 
 theorem fmtSField_parse (f : SField) (h : FieldOk f) :
     ∃ body, strip (fmtSField f) = body ∧ tableMatch body = none ∧ body.isEmpty = false ∧
       parseFieldLine body = .ok f := by
-  have htoks : ∀ t ∈ f.datatype :: f.flags, TokOk t := by
-    intro t ht
-    rcases List.mem_cons.mp ht with e | e
-    · subst e; exact h.dt.1
-    · exact (h.flags t e).1
-  have hlast : ∀ t ∈ f.datatype :: f.flags, LastOk t := by
-    intro t ht
-    rcases List.mem_cons.mp ht with e | e
-    · subst e; exact h.dt.2
-    · exact (h.flags t e).2
-  have hJlast := LastOk_joinWith (f.datatype :: f.flags) (by simp) hlast
+  have htoks := h.toks
+  have hJend : EndNS (joinWith ' ' (f.datatype :: f.flags)) := by
+    obtain ⟨pre, hpre⟩ := joinWith_getLast (f.datatype :: f.flags) (by simp)
+    rw [hpre]
+    exact EndNS_append _ _ (EndNS_of_tok _ (htoks _ (List.getLast_mem _)))
   obtain ⟨n0, ntl, hname⟩ : ∃ n0 ntl, f.name = n0 :: ntl := by
     cases hn : f.name with
     | nil => exact absurd hn h.name.1
     | cons a b => exact ⟨a, b, rfl⟩
-  have hn0 : isSpace n0 = false := (h.name.2 n0 (by simp [hname])).1
+  have hn0 : isSpace n0 = false := h.name.2 n0 (by simp [hname])
+  -- the line is not a relation header
+  have hnot : ∀ rest : List Char, (∀ pre, LastOk (lineTail f) → LastOk (pre ++ lineTail f)) →
+      (∃ pre, rest = pre ++ lineTail f) → tableMatch (f.name ++ rest) = none := by
+    intro rest _ hrest
+    rcases h.notTable with ⟨x, tl, hx, hw⟩ | hl
+    · rw [hx]; exact tableMatch_none_of_head x _ hw
+    · obtain ⟨pre, rfl⟩ := hrest
+      apply tableMatch_none_of_LastOk
+      rw [← List.append_assoc]
+      exact LastOk_append _ _ hl
   cases hc : f.comment with
   | none =>
+    have htail : lineTail f = (f.datatype :: f.flags).getLast (by simp) := by simp [lineTail, hc]
     refine ⟨f.name ++ ' ' :: (joinWith ' ' (f.datatype :: f.flags) ++ []), ?_, ?_, ?_, ?_⟩
     · have hfmt : fmtSField f = ' ' :: ' ' :: (f.name ++ ' ' :: (joinWith ' ' (f.datatype :: f.flags) ++ [])) := by
         simp [fmtSField, hc, joinWith]
       rw [hfmt, strip_cons_space, strip_cons_space]
-      have hL : LastOk (f.name ++ ' ' :: (joinWith ' ' (f.datatype :: f.flags) ++ [])) := by
-        simpa using LastOk_append (f.name ++ [' ']) _ hJlast
-      obtain ⟨pre, z, hpz, hz, _⟩ := hL
+      have hL : EndNS (f.name ++ ' ' :: (joinWith ' ' (f.datatype :: f.flags) ++ [])) := by
+        simpa using EndNS_append (f.name ++ [' ']) _ hJend
+      obtain ⟨pre, z, hpz, hz⟩ := hL
       rw [hname] at hpz ⊢
       exact strip_eq_self n0 _ pre z hpz hn0 hz
-    · apply tableMatch_none_of_LastOk
-      simpa using LastOk_append (f.name ++ [' ']) _ hJlast
+    · apply hnot _ (fun pre hl => LastOk_append pre _ hl)
+      obtain ⟨pre, hpre⟩ := joinWith_getLast (f.datatype :: f.flags) (by simp)
+      exact ⟨' ' :: pre, by rw [htail, hpre]; simp⟩
     · simp [hname]
     · have := parseFieldLine_fmt f.name f.datatype f.flags [] none h.name htoks (Or.inl ⟨rfl, rfl⟩)
       rw [this]
       cases f; simp_all
   | some c =>
     obtain ⟨⟨x, tl, hcx, hx⟩, hcl⟩ := h.comment c hc
+    have htail : lineTail f = c := by simp [lineTail, hc]
     have hce : c.isEmpty = false := by simp [hcx]
     let k := 40 - (' ' :: ' ' :: joinWith ' ' (f.name :: f.datatype :: f.flags)).length
     let T := List.replicate k ' ' ++ '#' :: ' ' :: c
@@ -610,15 +703,14 @@ theorem fmtSField_parse (f : SField) (h : FieldOk f) :
     · have hfmt : fmtSField f = ' ' :: ' ' :: (f.name ++ ' ' :: (joinWith ' ' (f.datatype :: f.flags) ++ T)) := by
         simp [fmtSField, hc, hce, joinWith, ljust, T, k]
       rw [hfmt, strip_cons_space, strip_cons_space]
-      have hL : LastOk (f.name ++ ' ' :: (joinWith ' ' (f.datatype :: f.flags) ++ T)) := by
-        have := LastOk_append (f.name ++ ' ' :: (joinWith ' ' (f.datatype :: f.flags) ++ List.replicate k ' ' ++ ['#', ' '])) c hcl
+      have hL : EndNS (f.name ++ ' ' :: (joinWith ' ' (f.datatype :: f.flags) ++ T)) := by
+        have := EndNS_append (f.name ++ ' ' :: (joinWith ' ' (f.datatype :: f.flags) ++ List.replicate k ' ' ++ ['#', ' '])) c hcl
         simpa [T] using this
-      obtain ⟨pre, z, hpz, hz, _⟩ := hL
+      obtain ⟨pre, z, hpz, hz⟩ := hL
       rw [hname] at hpz ⊢
       exact strip_eq_self n0 _ pre z hpz hn0 hz
-    · apply tableMatch_none_of_LastOk
-      have := LastOk_append (f.name ++ ' ' :: (joinWith ' ' (f.datatype :: f.flags) ++ List.replicate k ' ' ++ ['#', ' '])) c hcl
-      simpa [T] using this
+    · apply hnot _ (fun pre hl => LastOk_append pre _ hl)
+      exact ⟨' ' :: (joinWith ' ' (f.datatype :: f.flags) ++ List.replicate k ' ' ++ ['#', ' ']), by rw [htail]; simp [T]⟩
     · simp [hname]
     · have := parseFieldLine_fmt f.name f.datatype f.flags T (some c) h.name htoks
         (Or.inr ⟨k, c, x, tl, rfl, rfl, hcx, hx⟩)
@@ -638,8 +730,8 @@ theorem parseLine_blank (st : PState) : parseLine st [] = .ok st := by
 
 theorem parseLine_table (st : PState) (n : Name) (hn : RelNameOk n) (hnew : n ∉ st.tables.map (·.1)) :
     parseLine st (n ++ [':']) = .ok { done := st.tables, cur := some (n, []) } := by
-  obtain ⟨c, tl, rfl, hw, hsp⟩ := hn
-  have hc : isSpace c = false := hsp c (by simp)
+  obtain ⟨c, tl, rfl, hw⟩ := hn
+  have hc : isSpace c = false := word_not_space c hw
   have hstrip : strip ((c :: tl) ++ [':']) = c :: (tl ++ [':']) :=
     strip_eq_self c (tl ++ [':']) (c :: tl) ':' (by simp) hc isSpace_colon
   have hm : tableMatch (c :: (tl ++ [':'])) = some (c :: tl) := by
@@ -728,35 +820,6 @@ theorem parseLines_schema (st : PState) (ss : SSchema) (h : ∀ t ∈ ss, TableO
 
 /-! ### identifiers are inside the covered region -/
 
-/-- characters of an identifier: ASCII letters, digits, `_`, `-` -/
-def isIdentChar (c : Char) : Bool := C08.isAsciiWord c || c = '-'
-
-theorem identChar_props (c : Char) (h : isIdentChar c = true) :
-    isSpace c = false ∧ c ≠ '#' ∧ c ≠ ':' := by
-  have key : ∀ n : Nat, c.toNat = n →
-      ((48 ≤ n ∧ n ≤ 57) ∨ (97 ≤ n ∧ n ≤ 122) ∨ (65 ≤ n ∧ n ≤ 90) ∨ n = 95 ∨ n = 45) := by
-    intro n hn
-    simp only [isIdentChar, C08.isAsciiWord, C08.isDigit, Bool.or_eq_true, Bool.and_eq_true,
-      decide_eq_true_eq, Char.le_def, UInt32.le_iff_toNat_le, Char.isDigit, ge_iff_le] at h
-    subst hn
-    rcases h with ((((h | h) | h) | h) | h)
-    · left; exact ⟨h.1, h.2⟩
-    · right; left; exact ⟨h.1, h.2⟩
-    · right; right; left; exact ⟨h.1, h.2⟩
-    · right; right; right; left; subst h; rfl
-    · right; right; right; right; subst h; rfl
-  have hk := key c.toNat rfl
-  refine ⟨?_, ?_, ?_⟩
-  · have h1 : c ≠ ' ' := by intro e; subst e; revert hk; decide
-    have h2 : c ≠ '\t' := by intro e; subst e; revert hk; decide
-    have h3 : c ≠ '\n' := by intro e; subst e; revert hk; decide
-    have h4 : c ≠ '\r' := by intro e; subst e; revert hk; decide
-    simp only [isSpace, h1, h2, h3, h4, decide_false, Bool.false_or, Bool.or_eq_false_iff, Bool.and_eq_false_iff,
-      decide_eq_false_iff_not]
-    omega
-  · intro e; subst e; revert hk; decide
-  · intro e; subst e; revert hk; decide
-
 /-- an identifier: non-empty, identifier characters only (no white space, `#`, `:`) -/
 def IdentOk (n : List Char) : Prop := n ≠ [] ∧ ∀ c ∈ n, isIdentChar c = true
 
@@ -795,10 +858,295 @@ structure IdentTable (t : Name × List SField) : Prop where
     ∀ c, f.comment = some c → (∃ x tl, c = x :: tl ∧ isSpace x = false) ∧ LastOk c
 
 theorem TableOk_of_ident (t : Name × List SField) (h : IdentTable t) : TableOk t := by
-  obtain ⟨⟨hid, c, tl, hc, hw⟩, hf⟩ := h
-  refine ⟨⟨c, tl, hc, hw, fun x hx => (identChar_props x (hid.2 x hx)).1⟩, ?_⟩
+  obtain ⟨⟨_, c, tl, hc, hw⟩, hf⟩ := h
+  refine ⟨⟨c, tl, hc, hw⟩, ?_⟩
   intro f hfm
   obtain ⟨h1, h2, h3, h4⟩ := hf f hfm
-  exact ⟨TokOk_of_ident _ h1, TokOk_LastOk_of_flag _ h2, fun x hx => TokOk_LastOk_of_flag _ (h3 x hx), h4⟩
+  have htoks : ∀ t ∈ f.datatype :: f.flags, TokOk t ∧ LastOk t := by
+    intro t ht
+    rcases List.mem_cons.mp ht with e | e
+    · subst e; exact TokOk_LastOk_of_flag _ h2
+    · exact TokOk_LastOk_of_flag _ (h3 t e)
+  refine ⟨⟨h1.1, fun c hc => (identChar_props c (h1.2 c hc)).1⟩, fun t ht => (htoks t ht).1,
+    fun c hc => ⟨(h4 c hc).1, LastOk_EndNS c (h4 c hc).2⟩, Or.inr ?_⟩
+  cases hc : f.comment with
+  | none =>
+    have : lineTail f = (f.datatype :: f.flags).getLast (by simp) := by simp [lineTail, hc]
+    rw [this]
+    exact (htoks _ (List.getLast_mem _)).2
+  | some c =>
+    have : lineTail f = c := by simp [lineTail, hc]
+    rw [this]
+    exact (h4 c hc).2
+
+end Verif.C09
+
+/-! ### the decidable schema predicate, and the relations file at character level -/
+
+namespace Verif.C09
+open Verif.Py Verif.Tables
+open Verif.C08 (Val)
+
+def nameOkB (n : List Char) : Bool := !n.isEmpty && n.all (fun c => !isSpace c)
+def tokOkB (t : List Char) : Bool := !t.isEmpty && t.all (fun c => !isSpace c && c != '#')
+def noBreakB (l : List Char) : Bool := l.all (fun c => !isLineBreak c)
+def endNSB (l : List Char) : Bool := match l.getLast? with | some z => !isSpace z | none => false
+def lastOkB (l : List Char) : Bool := match l.getLast? with | some z => !isSpace z && z != ':' | none => false
+def headWordB (l : List Char) : Bool := match l with | c :: _ => C08.isAsciiWord c | [] => false
+def commentOkB (c : Option (List Char)) : Bool :=
+  match c with
+  | none => true
+  | some c => (match c with | x :: _ => !isSpace x | [] => false) && endNSB c && noBreakB c
+def fieldOkB (f : SField) : Bool :=
+  nameOkB f.name && (f.datatype :: f.flags).all tokOkB && commentOkB f.comment
+  && (!headWordB f.name || lastOkB (lineTail f))
+def tableOkB (t : Name × List SField) : Bool := headWordB t.1 && noBreakB t.1 && t.2.all fieldOkB
+def nodupB : List Name → Bool
+  | [] => true
+  | n :: ns => !ns.contains n && nodupB ns
+/-- the decidable predicate: exactly the schemas that `read_schema (write_schema s)` gives back -/
+def schemaOkB (ss : SSchema) : Bool := ss.all tableOkB && nodupB (ss.map (·.1))
+
+theorem nodupB_nodup (ns : List Name) (h : nodupB ns = true) : ns.Nodup := by
+  induction ns with
+  | nil => simp
+  | cons n ns ih =>
+    simp only [nodupB, Bool.and_eq_true, Bool.not_eq_true', List.contains_eq_mem, decide_eq_false_iff_not] at h
+    exact List.nodup_cons.mpr ⟨h.1, ih h.2⟩
+
+theorem NameOk_of_B (n : List Char) (h : nameOkB n = true) : NameOk n := by
+  simp only [nameOkB, Bool.and_eq_true, Bool.not_eq_true', List.isEmpty_eq_false_iff, List.all_eq_true] at h
+  exact ⟨h.1, fun c hc => by simpa using h.2 c hc⟩
+
+theorem TokOk_of_B (t : List Char) (h : tokOkB t = true) : TokOk t := by
+  simp only [tokOkB, Bool.and_eq_true, Bool.not_eq_true', List.isEmpty_eq_false_iff, List.all_eq_true] at h
+  exact ⟨h.1, fun c hc => by simpa using h.2 c hc⟩
+
+theorem EndNS_of_B (l : List Char) (h : endNSB l = true) : EndNS l := by
+  unfold endNSB at h
+  cases hl : l.getLast? with
+  | none => simp [hl] at h
+  | some z =>
+    obtain ⟨pre, hpre⟩ := List.getLast?_eq_some_iff.mp hl
+    exact ⟨pre, z, hpre, by simpa [hl] using h⟩
+
+theorem LastOk_of_B (l : List Char) (h : lastOkB l = true) : LastOk l := by
+  unfold lastOkB at h
+  cases hl : l.getLast? with
+  | none => simp [hl] at h
+  | some z =>
+    obtain ⟨pre, hpre⟩ := List.getLast?_eq_some_iff.mp hl
+    have : isSpace z = false ∧ z ≠ ':' := by simpa [hl] using h
+    exact ⟨pre, z, hpre, this.1, this.2⟩
+
+theorem FieldOk_of_B (f : SField) (h : fieldOkB f = true) : FieldOk f := by
+  simp only [fieldOkB, Bool.and_eq_true, Bool.or_eq_true, Bool.not_eq_true', List.all_eq_true] at h
+  obtain ⟨⟨⟨h1, h2⟩, h3⟩, h4⟩ := h
+  have hn := NameOk_of_B _ h1
+  refine ⟨hn, fun t ht => TokOk_of_B t (h2 t ht), ?_, ?_⟩
+  · intro c hc
+    rw [hc] at h3
+    simp only [commentOkB, Bool.and_eq_true] at h3
+    obtain ⟨⟨ha, hb⟩, _⟩ := h3
+    refine ⟨?_, EndNS_of_B c hb⟩
+    cases c with
+    | nil => simp at ha
+    | cons x tl => exact ⟨x, tl, rfl, by simpa using ha⟩
+  · rcases h4 with h4 | h4
+    · left
+      cases hnm : f.name with
+      | nil => exact absurd hnm hn.1
+      | cons x tl => exact ⟨x, tl, rfl, by simpa [headWordB, hnm] using h4⟩
+    · right; exact LastOk_of_B _ h4
+
+theorem TableOk_of_B (t : Name × List SField) (h : tableOkB t = true) : TableOk t := by
+  simp only [tableOkB, Bool.and_eq_true, List.all_eq_true] at h
+  obtain ⟨⟨h1, _⟩, h3⟩ := h
+  refine ⟨?_, fun f hf => FieldOk_of_B f (h3 f hf)⟩
+  cases hn : t.1 with
+  | nil => simp [headWordB, hn] at h1
+  | cons c tl => exact ⟨c, tl, rfl, by simpa [headWordB, hn] using h1⟩
+
+/-! every line break is white space, so tokens and names free of white space contain none -/
+
+theorem lineBreak_isSpace (c : Char) (h : isLineBreak c = true) : isSpace c = true := by
+  simp only [isLineBreak, Bool.or_eq_true, Bool.and_eq_true, decide_eq_true_eq] at h
+  rcases h with ((((((h | h) | h) | h) | h) | h) | h) | h
+  · subst h; decide
+  · subst h; decide
+  all_goals (simp only [isSpace, Bool.or_eq_true, Bool.and_eq_true, decide_eq_true_eq]; omega)
+
+theorem noBreak_of_noSpace (l : List Char) (h : ∀ c ∈ l, isSpace c = false) : noBreakB l = true := by
+  simp only [noBreakB, List.all_eq_true, Bool.not_eq_true']
+  intro c hc
+  cases hb : isLineBreak c with
+  | false => rfl
+  | true => have := lineBreak_isSpace c hb; rw [h c hc] at this; exact absurd this (by simp)
+
+theorem noBreak_append (a b : List Char) : noBreakB (a ++ b) = (noBreakB a && noBreakB b) := by
+  simp [noBreakB, List.all_append]
+
+theorem noBreak_joinWith (toks : List (List Char)) (h : ∀ t ∈ toks, noBreakB t = true) :
+    noBreakB (joinWith ' ' toks) = true := by
+  induction toks with
+  | nil => rfl
+  | cons p ps ih =>
+    cases ps with
+    | nil => simpa [joinWith] using h p (by simp)
+    | cons q qs =>
+      have h1 := h p (by simp)
+      have h2 := ih (fun t ht => h t (by simp [ht]))
+      have hsp : noBreakB [' '] = true := by decide
+      simp only [joinWith]
+      rw [show p ++ ' ' :: joinWith ' ' (q :: qs) = p ++ ([' '] ++ joinWith ' ' (q :: qs)) by simp,
+        noBreak_append, noBreak_append, h1, hsp, h2]
+      rfl
+
+theorem noBreak_replicate (k : Nat) : noBreakB (List.replicate k ' ') = true := by
+  simp only [noBreakB, List.all_eq_true, Bool.not_eq_true']
+  intro c hc
+  have : c = ' ' := (List.mem_replicate.mp hc).2
+  subst this; decide
+
+theorem noBreak_fmtSField (f : SField) (h : fieldOkB f = true) : noBreakB (fmtSField f) = true := by
+  have hb := h
+  simp only [fieldOkB, Bool.and_eq_true, List.all_eq_true] at hb
+  obtain ⟨⟨⟨h1, h2⟩, h3⟩, _⟩ := hb
+  have hname : noBreakB f.name = true := noBreak_of_noSpace _ (NameOk_of_B _ h1).2
+  have htoks : ∀ t ∈ f.name :: f.datatype :: f.flags, noBreakB t = true := by
+    intro t ht
+    rcases List.mem_cons.mp ht with e | e
+    · subst e; exact hname
+    · exact noBreak_of_noSpace _ (fun c hc => ((TokOk_of_B t (h2 t e)).2 c hc).1)
+  have hJ := noBreak_joinWith _ htoks
+  have h2s : noBreakB [' ', ' '] = true := by decide
+  have hs : noBreakB (' ' :: ' ' :: joinWith ' ' (f.name :: f.datatype :: f.flags)) = true := by
+    rw [show ' ' :: ' ' :: joinWith ' ' (f.name :: f.datatype :: f.flags)
+          = [' ', ' '] ++ joinWith ' ' (f.name :: f.datatype :: f.flags) by rfl, noBreak_append, h2s, hJ]; rfl
+  unfold fmtSField
+  cases hc : f.comment with
+  | none => simpa using hs
+  | some c =>
+    rw [hc] at h3
+    simp only [commentOkB, Bool.and_eq_true] at h3
+    have hcb : noBreakB c = true := h3.2
+    have hhash : noBreakB ['#', ' '] = true := by decide
+    simp only []
+    split
+    · exact hs
+    · unfold ljust
+      rw [show (' ' :: ' ' :: joinWith ' ' (f.name :: f.datatype :: f.flags)
+            ++ List.replicate (40 - (' ' :: ' ' :: joinWith ' ' (f.name :: f.datatype :: f.flags)).length) ' ')
+            ++ '#' :: ' ' :: c
+          = (' ' :: ' ' :: joinWith ' ' (f.name :: f.datatype :: f.flags))
+            ++ (List.replicate (40 - (' ' :: ' ' :: joinWith ' ' (f.name :: f.datatype :: f.flags)).length) ' '
+            ++ (['#', ' '] ++ c)) by simp,
+        noBreak_append, noBreak_append, noBreak_append, hs, noBreak_replicate, hhash, hcb]
+      rfl
+
+theorem noBreak_fmtTable (t : Name × List SField) (h : tableOkB t = true) :
+    ∀ l ∈ fmtTable t, noBreakB l = true := by
+  have hb := h
+  simp only [tableOkB, Bool.and_eq_true, List.all_eq_true] at hb
+  obtain ⟨⟨_, h2⟩, h3⟩ := hb
+  intro l hl
+  simp only [fmtTable, List.mem_cons] at hl
+  rcases hl with e | e
+  · subst e
+    rw [noBreak_append, h2]; decide
+  · unfold joinLines at e
+    split at e
+    · simp only [List.mem_singleton] at e; subst e; rfl
+    · obtain ⟨f, hf, rfl⟩ := List.mem_map.mp e
+      exact noBreak_fmtSField f (h3 f hf)
+
+theorem noBreak_formatSchema (ss : SSchema) (h : ∀ t ∈ ss, tableOkB t = true) :
+    ∀ l ∈ formatSchema ss, noBreakB l = true := by
+  induction ss with
+  | nil => intro l hl; simp [formatSchema] at hl; subst hl; rfl
+  | cons t ts ih =>
+    cases ts with
+    | nil => simpa [formatSchema] using noBreak_fmtTable t (h t (by simp))
+    | cons t2 ts =>
+      intro l hl
+      simp only [formatSchema, List.mem_append, List.mem_cons] at hl
+      rcases hl with e | e | e
+      · exact noBreak_fmtTable t (h t (by simp)) l e
+      · subst e; rfl
+      · exact ih (fun u hu => h u (by simp [hu])) l e
+
+/-! `str.splitlines` of the written text -/
+
+theorem splitlinesAux_nl (cur rest : List Char) :
+    splitlinesAux cur ('\n' :: rest) = cur.reverse :: splitlinesAux [] rest := by
+  cases rest with
+  | nil => simp [splitlinesAux, isLineBreak]
+  | cons d cs => simp [splitlinesAux, isLineBreak]
+
+theorem splitlinesAux_nb (cur : List Char) (c d : Char) (cs : List Char) (hc : isLineBreak c = false) :
+    splitlinesAux cur (c :: d :: cs) = splitlinesAux (c :: cur) (d :: cs) := by
+  have hr : c ≠ '\r' := by intro e; subst e; simp [isLineBreak] at hc
+  simp [splitlinesAux, hc, hr]
+
+theorem splitlinesAux_line (cur l rest : List Char) (h : noBreakB l = true) :
+    splitlinesAux cur (l ++ '\n' :: rest) = (cur.reverse ++ l) :: splitlinesAux [] rest := by
+  induction l generalizing cur with
+  | nil => simp [splitlinesAux_nl]
+  | cons c l ih =>
+    simp only [noBreakB, List.all_cons, Bool.and_eq_true, Bool.not_eq_true'] at h
+    have hl : noBreakB l = true := h.2
+    cases hl' : l ++ '\n' :: rest with
+    | nil => simp at hl'
+    | cons d cs =>
+      rw [List.cons_append, hl', splitlinesAux_nb cur c d cs h.1, ← hl', ih (c :: cur) hl]
+      simp
+
+theorem splitlinesPy_toText (ls : List Line) (h : ∀ l ∈ ls, noBreakB l = true) :
+    splitlinesPy (toText ls) = ls := by
+  induction ls with
+  | nil => rfl
+  | cons l ls ih =>
+    have h1 := h l (by simp)
+    have h2 : ∀ l' ∈ ls, noBreakB l' = true := fun l' hl => h l' (by simp [hl])
+    have : toText (l :: ls) = l ++ '\n' :: toText ls := by simp [toText]
+    unfold splitlinesPy at ih ⊢
+    rw [this, splitlinesAux_line [] l _ h1, ih h2]
+    simp
+
+/-! ### the reading interfaces -/
+
+theorem mapM_map_eq {α β γ} (f : α → β) (g : β → Except Err γ) (xs : List α) :
+    (xs.map f).mapM g = xs.mapM (fun x => g (f x)) := by
+  induction xs with
+  | nil => rfl
+  | cons x xs ih => simp [List.mapM_cons, ih]
+
+/-- if the first pass succeeds, a fused pass equals the second pass over its result -/
+theorem mapM_fuse {α β γ} (f : α → Except Err β) (g : β → Except Err γ) (xs : List α) (ys : List β)
+    (h : xs.mapM f = .ok ys) : xs.mapM (fun x => do g (← f x)) = ys.mapM g := by
+  induction xs generalizing ys with
+  | nil =>
+    have : ys = [] := by simpa [pure, Except.pure] using h.symm
+    subst this; rfl
+  | cons x xs ih =>
+    rw [List.mapM_cons] at h
+    cases h1 : f x with
+    | error e => simp [h1, bind, Except.bind] at h
+    | ok y =>
+      cases h2 : xs.mapM f with
+      | error e => simp [h1, h2, bind, Except.bind] at h
+      | ok ys' =>
+        simp [h1, h2, bind, Except.bind, pure, Except.pure] at h
+        subst h
+        rw [List.mapM_cons, List.mapM_cons, ih ys' h2]
+        simp [h1, bind, Except.bind]
+
+theorem decodeRaw_eq_splitLine (l : Line) : decodeRaw l = splitLine (l ++ ['\n']) := rfl
+
+/-- does `read_schema(write_schema(s))` give `s` back? -/
+def roundTrips (s : SSchema) : Bool := decide ((readSchema (writeSchema s)).toOption = some s)
+
+def mkF (n dt : String) (flags : List String) (c : Option String) : SField :=
+  { name := n.toList, datatype := dt.toList, flags := flags.map (·.toList), comment := c.map (·.toList) }
 
 end Verif.C09
